@@ -54,7 +54,17 @@ def raw_object_output(prog):
     "the query's final value is a data-model object (First() of an object sequence / identity Select)"
     import re
     q = prog.src or prog.query
-    return bool(re.search(r"\.First\(\)\)\s*$", q) or re.search(r"lambda (\w+): \1\)\s*$", q))
+    return bool(re.search(r"\.First\(\)\)\s*$", q) or re.search(r"lambda (\w+): \1\)\s*$", q)
+                or re.fullmatch(r"SelectMany\(EventDataset\('ds'\), lambda e: e\.\w+\('\w+'\)\)", q.strip())      # one raw object per row
+                or re.search(r"lambda (\w+): \(\1\.pt\(\), \1\)\)\s*$", q)                                      # a raw object inside a tuple
+                or re.search(r"lambda e: e\.EventInfo\('EI'\)\)\s*$", q))                                            # a singleton object
+
+
+def compares_object(prog):
+    "a comparison whose operand is a bare data-model object (a lambda parameter bound to an element, or a singleton collection)"
+    import re
+    q = prog.src or prog.query
+    return bool(re.search(r"\((j|t) (>|==) (1|j|t)\)", q) or re.search(r"\(e\.EventInfo\('EI'\) > 1\)", q))
 
 
 def declares_tree_type(prog):
@@ -64,6 +74,7 @@ def declares_tree_type(prog):
 PREDICATES = {
     "declares_tree_type": declares_tree_type,
     "raw_object_output": raw_object_output,
+    "compares_object": compares_object,
     "uses_minmax": uses_minmax,
     "range_with_computed_bound": range_with_computed_bound,
     "mod_present": mod_present,
